@@ -42,7 +42,7 @@ def make_names(base, k, prefix, dup):
     return out
 
 
-def judge(n, mode, files, base, dup, accmode, opts, res):
+def judge(n, mode, files, base, dup, accmode, opts, res, known=()):
     nv, ndv = len(n.vars), len(n.dvars)
     nalg, nlog, nobj = len(n.cons), len(n.lcons), len(n.objs)
     col = make_names(base, nv + ndv, "V", dup)
@@ -126,6 +126,7 @@ def judge(n, mode, files, base, dup, accmode, opts, res):
             break
     dups = {s for s in cnames if s and cnames.count(s) > 1}
     if dups:
+        cobj["dups"] = sorted(dups)
         problems.append(("duplicate-con-name", "constraints share the name(s) %s" % sorted(dups)[:3]))
     for i, s in enumerate(onames):
         if not s:
@@ -135,10 +136,12 @@ def judge(n, mode, files, base, dup, accmode, opts, res):
     naux = (fm.nvars - nv) + max(0, len(fm.cons) - nalg - nlog)
     res.case(common.h(cobj), naux >= 2, labels=["mode=%d" % mode, "files=" + files, "acc=" + accmode],
              sample=dict(model=nl.show_model(n)[:200], mode=mode, files=files, var_names=(vnames or [])[:8], con_names=cnames[:6]))
-    if problems:
-        key, desc = problems[0]
-        from .. import findings
+    from .. import findings
+    for key, desc in problems:
         k2 = findings.classify("C19", key, cobj, desc)
+        if k2 is not None and k2 in known:
+            res.known(k2, {"desc": desc[:200]})     # recorded finding: count, keep looking at the other problems of this case
+            continue
         return (desc + " | mode %d files %s acc %s | model %s" % (mode, files, accmode, nl.show_model(n)[:300]), cobj, k2)
     return None
 
@@ -150,7 +153,7 @@ def run(ctx):
     def check(case, res):
         m, info, mode, files, base, dup, accmode, opts = case
         n, _, _ = nl.normalize(m)
-        return judge(n, mode, files, base, dup, accmode, opts, res)
+        return judge(n, mode, files, base, dup, accmode, opts, res, known)
     res = hyp.run_property(ctx, cases(), check, ctx.pick(4000, 120000), known_keys=known, time_budget=ctx.pick(300, 3600))
     return common.finish(ctx, res, "exploration", RULE,
                          ["generic names are AMPL's synonyms _svar/_sdvar/_scon/_slogcon/_sobj as coded in ReadNames",
@@ -162,7 +165,8 @@ def replay(ctx, path):
     c = json.load(open(path))
     n = nl.model_from_obj(c["model"])
     res = common.Result()
-    v = judge(n, c["mode"], c["files"], c["base"], c["dup"], c["accmode"], c["opts"], res)
+    known = {k for k, r in common.load_known(ctx.pid).items() if r.get("status") == "known"}
+    v = judge(n, c["mode"], c["files"], c["base"], c["dup"], c["accmode"], c["opts"], res, known)
     if v:
         print("VIOLATION property=%s replay=%s" % (ctx.pid, path))
         print("  " + v[0][:800])
